@@ -148,6 +148,13 @@ func (m *Metadata) UnmarshalBinary(data []byte) error {
 	// Read count and pre-size map to avoid rehashing.
 	count := int(binary.BigEndian.Uint16(data[pos:]))
 	pos += 2
+
+	// Every header occupies at least 4 bytes (two length prefixes). Reject an
+	// impossible count before it is used to pre-size the map, so a tiny
+	// malformed block cannot force a multi-megabyte allocation.
+	if count > (len(data)-10)/4 {
+		return ErrInvalidMetadata
+	}
 	m.headers = make(map[string]string, count)
 
 	for range count {
